@@ -660,6 +660,8 @@ func c05(tier string) int {
 	run := ev.NewRun("C05", tier, "model_checking")
 	c05Explore(run, "C05", tier)
 	c05RacePass(run, tier)
+	// Upgrade leg: a reader of the earlier release's file never sees a log go back.
+	legacyDBLeg(run, "C05")
 	return run.Finish()
 }
 
